@@ -291,6 +291,14 @@ class CSSStyleSheet(cssutils.stylesheets.StyleSheet):
                 )
                 rule = cssutils.css.MarginRule(parentStyleSheet=self)
                 rule.cssText = self._tokensupto2(tokenizer, token)
+            elif self._normalize(token[1]) == '@charset':
+                # e.g. '@charset"x";' or '@CHARSET "x";': kept as an unknown rule it
+                # would be serialised as a real (and wrong) encoding declaration
+                self._log.error(
+                    'CSSStylesheet: Invalid @charset rule.', token, neverraise=True
+                )
+                self._tokensupto2(tokenizer, token)
+                return max(1, expected or 0)
             else:
                 self._log.warn(
                     'CSSStylesheet: Unknown @rule found.', token, neverraise=True
